@@ -56,6 +56,25 @@ pub fn run(out: &mut Out, seed: u64, tier: &str) {
         mols.push(distort(&c, 0.02, &mut rng));
         mols.push(c);
     } } }
+    // fused three-membered rings and dense clusters (tetrahedrane, bicyclobutane, P4, a compressed C4 / C6): many torsions share
+    // a central bond there, and optimisations from such starts do not converge within the budget — where the order in which terms
+    // are summed shows in the result
+    {
+        let t = 1.0 / 3f64.sqrt();
+        let tetra = |z: usize, d: f64, name: &str| Mol { name: name.into(), zs: vec![z; 4], xs: vec![[d * t, d * t, d * t], [d * t, -d * t, -d * t], [-d * t, d * t, -d * t], [-d * t, -d * t, d * t]] };
+        // (slightly distorted: in an exactly symmetric start the tied terms are equal and their order cannot show)
+        for (z, d, name) in [(6usize, 0.92, "tetrahedrane-core"), (6, 0.75, "compressed-c4"), (6, 0.70, "compressed-c4-b"), (15, 1.35, "p4"), (7, 0.8, "compressed-n4")] {
+            let mut m = distort(&tetra(z, d, name), 0.04, &mut rng); m.name = name.into(); mols.insert(0, m);
+        }
+        mols.insert(0, named("bicyclobutane", &[("C", 0.0, 0.75, 0.0), ("C", 0.0, -0.75, 0.0), ("C", 1.1, 0.0, 0.55), ("C", -1.1, 0.0, 0.55),
+            ("H", 0.0, 1.45, -0.85), ("H", 0.0, -1.45, -0.85), ("H", 1.3, 0.0, 1.62), ("H", 2.0, 0.0, -0.05), ("H", -1.3, 0.0, 1.62), ("H", -2.0, 0.0, -0.05)]));
+        for k in 0..(if tier == "thorough" { 12 } else { 3 }) {
+            let n = 5 + k % 2;
+            let mut xs: Vec<[f64; 3]> = vec![];
+            while xs.len() < n { let p = [rng.range(-1.1, 1.1), rng.range(-1.1, 1.1), rng.range(-1.1, 1.1)]; if xs.iter().all(|q| ((p[0] - q[0]).powi(2) + (p[1] - q[1]).powi(2) + (p[2] - q[2]).powi(2)).sqrt() > 0.85) { xs.push(p); } }
+            mols.insert(0, Mol { name: format!("dense-carbon-cluster-{}", k), zs: vec![6; n], xs });
+        }
+    }
     let (mut n, mut multi) = (0usize, 0usize);
     for m in mols.iter() {
         if m.n() > 20 || m.min_distance() < 0.5 { continue; }
@@ -118,14 +137,17 @@ pub fn run(out: &mut Out, seed: u64, tier: &str) {
     // that differences in the last bits of the gradient are amplified — is built and optimised several times in this process
     // (every construction draws fresh hash keys); the results must agree to the written precision, 1e-6 A
     let mut n_opt_pairs = 0usize;
+    let mut n_dense = 0usize;
     for (k, m) in mols.iter().enumerate() {
         if m.n() > 12 || m.n() < 2 || m.min_distance() < 0.6 { continue; }
-        if tier != "thorough" && k % 3 != 0 { continue; }
+        let dense = m.name.starts_with("dense-") || m.name.starts_with("compressed-") || m.name == "tetrahedrane-core" || m.name == "p4" || m.name == "bicyclobutane";
+        if dense { n_dense += 1; }
+        if tier != "thorough" && k % 3 != 0 && !dense { continue; }
         let squeezed = { let mut c = m.clone(); for p in c.xs.iter_mut() { for q in 0..3 { p[q] *= 0.8; } } c };
         for start in [m.clone(), squeezed] {
             if start.min_distance() < 0.5 { continue; }
             let mut firstx: Option<Vec<[f64; 3]>> = None;
-            for r in 0..(if tier == "thorough" { 6 } else { 3 }) {
+            for r in 0..(if dense { 8 } else if tier == "thorough" { 6 } else { 3 }) {
                 let res = match crate::s_opt::optimise_checked(&start, "uff") { Some(x) => x, None => break };
                 if !res.xf.iter().all(|p| p.iter().all(|v| v.is_finite())) { break; }
                 match &firstx {
@@ -143,6 +165,7 @@ pub fn run(out: &mut Out, seed: u64, tier: &str) {
         }
     }
     out.stat("in_process_optimisation_pairs_compared", n_opt_pairs);
+    out.stat("dense_and_fused_ring_starts_optimised_repeatedly", n_dense);
     // separate runs of the command-line tool: the same atoms, coordinates equal to the written precision (1e-6 A; the
     // property does not promise identical bytes: `-0.000000` and `0.000000`, or a last digit on a rounding boundary, may differ)
     let n_cli = if tier == "thorough" { 12 } else { 4 };
